@@ -1,4 +1,5 @@
 import CollectionsC.Properties.C03
+import CollectionsC.Proofs.TreeTableAnyCmp
 /-! # C17 — CC_TreeTable stays balanced: logarithmic comparisons for every history
 
 Statements and closing proofs only.  `Tree.RB` is the red-black invariant (root black, no red node
@@ -80,86 +81,35 @@ theorem C17_iterator (ho : TotalOrder cmp) (t : TreeTable) (h : t.Inv cmp) (prog
   rw [c.2.2]; exact height_bound _ c.2.1
 
 /-- **C17 for sessions**: histories that interleave table calls with iterator sessions ("including
-removals through the iterator and of first/last") end in a balanced tree -/
+removals through the iterator and of first/last") end in a balanced tree, and every table call of the
+session stayed within the comparator budget (`sessionCounts`: keys before the call, comparator calls;
+iterator calls make no comparator call in the C code — the harness prints `cmps=0` for them) -/
 theorem C17_session (ho : TotalOrder cmp) (segs : List Segment) (t : TreeTable) (h : t.Inv cmp) (m : Mem)
     (hm : TreeTable.Owns t m) :
     (t.runSession cmp segs m).2.1.root.RB ∧
-    (t.runSession cmp segs m).2.1.root.height ≤ 2 * Nat.log2 ((t.runSession cmp segs m).2.1.size + 1) := by
+    (t.runSession cmp segs m).2.1.root.height ≤ 2 * Nat.log2 ((t.runSession cmp segs m).2.1.size + 1) ∧
+    ∀ p ∈ t.sessionCounts cmp segs m, p.2 ≤ 2 * Nat.log2 (p.1 + 1) + 2 := by
   have c := (C03.session_refines ho segs t h m hm).2.2.1
-  refine ⟨c.2.1, ?_⟩
+  refine ⟨c.2.1, ?_, TreeTable.session_counts_ok ho segs h m hm⟩
   rw [c.2.2]; exact height_bound _ c.2.1
 
 /-- balance needs no assumption on the comparator: for **any** function `cmp` (not even an order) every
-call preserves "red-black rules ∧ size field = node count", and the comparator budget holds -/
-theorem balanced_any_cmp (t : TreeTable) (hrb : t.root.RB) (hs : t.size = t.root.size) (op : Op) (m : Mem) :
-    (t.step cmp op m).2.1.root.RB ∧
-    ((t.step cmp op m).2.2.2 ≤ 2 * Nat.log2 (t.size + 1) + 2) := by
-  have hlook : ∀ k, (t.lookup cmp k).2 ≤ 2 * Nat.log2 (t.size + 1) := by
-    intro k
-    unfold TreeTable.lookup
-    split
-    · exact Nat.zero_le _
-    · rw [hs]; exact Nat.le_trans (Tree.find_cnt_le_height k t.root) (height_bound _ hrb)
-  cases op with
-  | add k v =>
-    have hc : (Tree.ins cmp k v t.root).2.2 ≤ 2 * Nat.log2 (t.size + 1) := by
-      rw [hs]; exact Nat.le_trans (Tree.ins_cnt_le_height k v t.root) (height_bound _ hrb)
-    simp only [TreeTable.step]; unfold TreeTable.add; dsimp only
-    split
-    · rename_i hn
-      simp only [Bool.not_eq_true'] at hn
-      exact ⟨Tree.RB_replace k v t.root hrb hn, by show (Tree.ins cmp k v t.root).2.2 ≤ _; omega⟩
-    · split
-      · exact ⟨hrb, by show (Tree.ins cmp k v t.root).2.2 ≤ _; omega⟩
-      · refine ⟨Tree.RB_insert k v t.root hrb, ?_⟩
-        show (if t.root = .nil then _ else _) ≤ _
-        split <;> omega
-  | remove k =>
-    have := hlook k
-    simp only [TreeTable.step]; unfold TreeTable.remove
-    generalize t.lookup cmp k = r at this ⊢
-    rcases r with ⟨_ | v, n⟩
-    · exact ⟨hrb, by simp only at this ⊢; omega⟩
-    · exact ⟨Tree.RB_delete k t.root hrb, by simp only at this ⊢; omega⟩
-  | removeFirst =>
-    simp only [TreeTable.step]; unfold TreeTable.removeFirst
-    split
-    · exact ⟨hrb, Nat.zero_le _⟩
-    · cases t.root.minEntry with
-      | none => exact ⟨hrb, Nat.zero_le _⟩
-      | some e => exact ⟨Tree.RB_delMin t.root hrb, Nat.zero_le _⟩
-  | removeLast =>
-    simp only [TreeTable.step]; unfold TreeTable.removeLast
-    split
-    · exact ⟨hrb, Nat.zero_le _⟩
-    · cases t.root.maxEntry with
-      | none => exact ⟨hrb, Nat.zero_le _⟩
-      | some e => exact ⟨Tree.RB_delMax t.root hrb, Nat.zero_le _⟩
-  | removeAll => exact ⟨⟨trivial, rfl⟩, Nat.zero_le _⟩
-  | get k =>
-    refine ⟨hrb, ?_⟩
-    have := hlook k
-    simp only [TreeTable.step]; unfold TreeTable.get
-    generalize t.lookup cmp k = r at this ⊢
-    rcases r with ⟨_ | v, n⟩ <;> (simp only at this ⊢; omega)
-  | containsKey k => exact ⟨hrb, by have := hlook k; simp only [TreeTable.step, TreeTable.containsKey]; omega⟩
-  | greaterThan k =>
-    refine ⟨hrb, ?_⟩
-    have := hlook k
-    simp only [TreeTable.step]; unfold TreeTable.greaterThan
-    generalize t.lookup cmp k = r at this ⊢
-    rcases r with ⟨_ | v, n⟩
-    · simp only at this ⊢; omega
-    · cases Tree.succOfKey cmp t.root k <;> (simp only at this ⊢; omega)
-  | lesserThan k =>
-    refine ⟨hrb, ?_⟩
-    have := hlook k
-    simp only [TreeTable.step]; unfold TreeTable.lesserThan
-    generalize t.lookup cmp k = r at this ⊢
-    rcases r with ⟨_ | v, n⟩
-    · simp only at this ⊢; omega
-    · cases Tree.predOfKey cmp t.root k <;> (simp only at this ⊢; omega)
-  | _ => exact ⟨hrb, Nat.zero_le _⟩
+call preserves `Balanced` = "red-black rules ∧ size field = node count" and keeps the comparator
+budget.  (Iterator removal is not included: the model locates `current` by a descent, which presupposes
+the order; the C code holds the pointer.) -/
+theorem balanced_any_cmp (t : TreeTable) (hb : t.Balanced) (op : Op) (m : Mem) :
+    (t.step cmp op m).2.1.Balanced ∧ (t.step cmp op m).2.2.2 ≤ 2 * Nat.log2 (t.size + 1) + 2 :=
+  TreeTable.step_balanced hb op m
+
+/-- … along every history: balanced at the end (hence after every prefix), every call within budget,
+height logarithmic — for any comparator function, any allocator schedule -/
+theorem balanced_any_cmp_history (ops : List (Op × List Bool)) (t : TreeTable) (hb : t.Balanced) (m : Mem) :
+    (t.run cmp ops m).2.2.1.Balanced ∧
+    (t.run cmp ops m).2.2.1.root.height ≤ 2 * Nat.log2 ((t.run cmp ops m).2.2.1.size + 1) ∧
+    ∀ p ∈ (t.run cmp ops m).2.1, p.2 ≤ 2 * Nat.log2 (p.1 + 1) + 2 := by
+  obtain ⟨a, b⟩ := TreeTable.run_balanced (cmp := cmp) ops hb m
+  refine ⟨a, ?_, b⟩
+  rw [a.2]; exact height_bound _ a.1
 
 /-! ## Non-vacuity: the bound is attained, and a degenerate tree violates the invariant -/
 
@@ -174,5 +124,14 @@ example :
 /-- a list-shaped tree of three keys does not -/
 example : ¬ (Tree.node .black .nil 1 0 (Tree.node .black .nil 2 0 (Tree.node .black .nil 3 0 .nil))).RB := by
   decide
+
+open CC.Driver.TreeTableD (cmpOf) in
+/-- the comparator budget is attained up to its slack of one: inserting 7 into the table built by
+inserting 1 … 6 in ascending order makes 5 = 2·⌊log₂ 7⌋ + 1 comparator calls (4 on the way down, one at
+the parent) -/
+example :
+    ((({} : TreeTable).run (cmpOf 0)
+        [(.add 1 0, []), (.add 2 0, []), (.add 3 0, []), (.add 4 0, []), (.add 5 0, []), (.add 6 0, []),
+         (.add 7 0, [])] {}).2.1.getLast?) = some (6, 5) ∧ 2 * Nat.log2 (6 + 1) + 1 = 5 := by decide
 
 end CC.Properties.C17
